@@ -30,7 +30,10 @@ def deductive(tier="quick", seed=0):
     except Exception:  # noqa: BLE001
         pass
     tasks = [t for t in D.tasks(tier) if t.label.startswith(("insert_at", "remove_op", "replace_op"))]
-    d = run_tasks(tasks + SEM.tasks())
+    from contracts import trs_sync as X  # the time-reversed solver's circuit-side helpers (proved for C02): emission CNOTs and
+    # measure-and-reset ops are built emitter-controlled, e->p, and carry "Fixed" BEFORE they are inserted (node_dict is indexed at
+    # insertion, and the moves exclude nodes by node_dict["Fixed"])
+    d = run_tasks(tasks + SEM.tasks() + X.leaf_tasks())
     d.obligations.extend(wires.obligations())
     d.obligations.extend(emit_inv.obligations())
     d.obligations.extend(MS.c04_obligations())
